@@ -66,6 +66,10 @@ type item struct {
 	// lenClass: ECDSA length-class case: built (signed) until the longest and the two next DER length
 	// classes of the key's curve were seen or lenClassTries builds were made
 	lenClass bool
+	// signature-size dimension (sigsize.go): sizeGrid = grid case (light treatment: every clause that
+	// does not tamper, cuts at element offsets only); observeOnly = an (estimate, actual) pair no
+	// shipped signer family produces: built, outcome counted, nothing reported
+	sizeGrid, observeOnly bool
 }
 
 type space struct {
@@ -187,7 +191,7 @@ func buildSpace(thorough bool) *space {
 				pktgen.EcdsaMaxDER(sg.CurveBits), pktgen.EcdsaMaxDER(sg.CurveBits)-1, pktgen.EcdsaMaxDER(sg.CurveBits)-2), d: b.Desc, depth: 0, lenClass: true})
 		}
 	}
-	sp.cases = append(append(lc, sweep...), sp.cases...)
+	sp.cases = append(append(append(sigSizeItems(thorough), lc...), sweep...), sp.cases...)
 	return sp
 }
 
@@ -251,6 +255,7 @@ func (c *caseCtx) viol(clause, key, detail string, extra map[string]any) {
 		detail = key + " :: " + detail
 		key = collapsedKey
 	}
+	key += c.d.SizeWord()
 	rp := map[string]any{}
 	for k, v := range c.replay {
 		rp[k] = v
@@ -277,6 +282,9 @@ func (c *caseCtx) note(set, v string) {
 // signerWord names the signer in a key: the family, or the exact mode for key-material variants
 // (there the key is the point: e.g. "hmac-key64").
 func signerWord(sp *pktgen.SignerSpec) string {
+	if sp.SizeClass != "" {
+		return sp.Family // signature-size dimension: the size class is appended to the key by viol
+	}
 	if sp.KeyVariant {
 		return sp.Name
 	}
@@ -640,7 +648,12 @@ func evalCase(s *space, idx int, startBit int, careful bool, thorough bool, dead
 		evalSweep(s, idx)
 		return
 	}
+	if it.observeOnly {
+		observeSize(idx, it)
+		return
+	}
 	d := it.d
+	light := it.sizeGrid
 	c := struct{ Devs []int }{make([]int, it.depth)}
 	cc := &caseCtx{idx: idx, label: it.label, d: &d, stat: map[string]int64{}, sets: map[string]map[string]bool{}}
 	cc.replay = map[string]any{"case": cc.label, "desc": d.String(), "case_index": idx}
@@ -661,7 +674,12 @@ func evalCase(s *space, idx int, startBit int, careful bool, thorough bool, dead
 		cc.viol("C12.cover", "packet API panics: "+b.Panic, "build panicked", nil)
 		return
 	}
-	delayedVerify(cc, b)
+	if d.Ext == nil {
+		delayedVerify(cc, b)
+	} else {
+		cc.stat["signature_size_cases"]++
+		cc.note("signature_size_estimates", fmt.Sprintf("%s %s", kind(&d), sizeBucket(int(b.Rec.Inner.EstimateSize()))))
+	}
 	if tooLong(cc, b) {
 		return
 	}
@@ -687,7 +705,11 @@ func evalCase(s *space, idx int, startBit int, careful bool, thorough bool, dead
 	ref := decode(d.Interest, enc.NewBufferReader(B))
 	cc.stat["decodes"]++
 	if !ref.ok {
-		cc.viol("C12.cover", kind(&d)+" ("+fam+") does not decode: "+ref.why(), "contiguous decode of the packet just built: "+ref.why(), nil)
+		famKey := fam
+		if b.SignerSp != nil && b.SignerSp.SizeClass != "" {
+			famKey = b.SignerSp.Family
+		}
+		cc.viol("C12.cover", kind(&d)+" ("+famKey+") does not decode: "+ref.why(), "contiguous decode of the packet just built: "+ref.why(), nil)
 		return
 	}
 	signed := b.Rec != nil && b.Rec.Asked
@@ -757,6 +779,9 @@ func evalCase(s *space, idx int, startBit int, careful bool, thorough bool, dead
 		if n > 1200 && root != nil {
 			cuts1 = root.HeaderCuts(n, 2)
 		}
+		if light && root != nil {
+			cuts1 = root.HeaderCuts(n, 0)
+		}
 		trySegVia := func(ep int, cuts ...int) {
 			o := decodeVia(ep, d.Interest, B, cuts)
 			cc.stat["decodes"]++
@@ -809,7 +834,7 @@ func evalCase(s *space, idx int, startBit int, careful bool, thorough bool, dead
 					continue
 				}
 			}
-			if ep == epEngineLp0 {
+			if ep == epEngineLp0 || (light && ep != epPacket) {
 				continue // differs from the full LpPacket only in the header fields: contiguous decode only
 			}
 			cutsE := cuts1
@@ -841,6 +866,9 @@ func evalCase(s *space, idx int, startBit int, careful bool, thorough bool, dead
 		if n > lim2 && root != nil {
 			pos2 = root.HeaderCuts(n, 0)
 		}
+		if light {
+			pos2 = nil
+		}
 		if len(pos2) <= 400 {
 			for i := 0; i < len(pos2); i++ {
 				for j := i + 1; j < len(pos2); j++ {
@@ -849,7 +877,9 @@ func evalCase(s *space, idx int, startBit int, careful bool, thorough bool, dead
 			}
 		}
 		// 3 cuts: all for small packets; otherwise outer header end + every pair of element offsets
-		if n <= 56 || (thorough && len(c.Devs) <= 1 && n <= 112) {
+		if light {
+			// grid case: no 3-cuts
+		} else if n <= 56 || (thorough && len(c.Devs) <= 1 && n <= 112) {
 			for i := 0; i < len(cuts1); i++ {
 				for j := i + 1; j < len(cuts1); j++ {
 					for k := j + 1; k < len(cuts1); k++ {
@@ -909,7 +939,7 @@ func evalCase(s *space, idx int, startBit int, careful bool, thorough bool, dead
 	}
 
 	// ---- C12.tamper / C12.digest (dynamic part)
-	if root == nil {
+	if root == nil || light {
 		return
 	}
 	var regs []region
